@@ -86,7 +86,7 @@ def run():
     if len(live) >= 2:
         jobs.append({"module": "MC_RegistryPairs", "modules": ["MC_RegistryPairs"], "cfg": "MC_RegistryPairs.cfg",
                      "files": [regfile], "allow_violation": True, "extra": ["-continue"], "coverage": True,
-                     "require_actions": ("Stat", "Mkdir", "DlBegin", "DlEnd", "Verify", "Parse", "DumpBegin", "DumpEnd",
+                     "require_actions": ("Stat", "Mkdir", "DlBegin", "DlEnd", "Verify", "Parse", "DumpBegin", "DumpEnd", "DumpClose",
                                          "Rename", "Cleanup", "Return")})
     results = cachelib.run_models(c, jobs, parallel=2)
     for j, r in zip(jobs, results):
